@@ -2,26 +2,29 @@
 """C11 — var resolves paths through objects, arrays and strings; absent means default.
 
 Structural clauses (necessary conditions; the path arithmetic itself is value-level):
-  K1  key typing: both KeyType conversions (from Value and from &Value) have the
-      same matrix — Null → Null key, String → String key carrying the payload,
-      Number → integer key through as_i64 or Err, Bool/Array/Object → Err;
-  K2  one negative-index helper: every positional access into data arrays and
-      strings inside the lookup goes through the one helper (slice, i64) → Option;
-      strings are turned into Vec<char> by chars().collect() before it (never
-      bytes / byte length / byte offsets anywhere in the lookup's reach); the
-      helper takes the length of the very slice it indexes, subtracts with
-      checked_sub on the negative branch and reads with slice::get;
-  K3  absent is None, present is Some — even for null: var selects the default
-      only through unwrap_or / unwrap_or_else / the None edge of the lookup
-      result and never inspects the found value; the default is null or a clone
-      of operand 1 (guarded by the operand count); the operand-less form, the null
+  K1  key typing: every conversion Value → key (found by signature; helpers of the conversions are read through),
+      as a table JSON kind → outcomes read off its composed decision cases — Null → Null key, String → String key
+      carrying the string's own text, Number → integer key that is the payload of as_i64 or Err, Bool/Array/Object →
+      Err; all conversions agree;
+  K2  the index helper, by role (a (sequence, i64) → Option function in the lookup's reach that performs a positional
+      access itself — slice, Vec or any DoubleEndedIterator): outside it no positional access, nowhere a byte-based
+      string operation; at its call sites the text of a data string arrives only as its chars() (provenance), an
+      array as its own payload; its decision cases form the position table  idx >= 0 → |idx| from the front,
+      idx < 0 → |idx| from the back (len − |idx| with a checked subtraction on the length of the sequence read,
+      nth_back(|idx| − 1), rev().nth(|idx| − 1)) or nothing — a clamped subtraction, a foreign length, another sign
+      test are read and wrong, arithmetic the reader does not know is left unread;
+  K3  absent is None, present is Some — even for null: var's decision cases return the found value, and only when
+      the lookup (found by role: the Option<Value> function var calls with the data and the key) answers None the
+      default — null or a clone of operand 1; var never inspects the found value; the operand-less form, the null
       key and the empty string return a clone of the entire data;
   K4  the default is used as a value, never re-interpreted (C04's S1 analysis);
-  K5  frame: per path segment the lookup reads an object only by Map::get with
-      that segment, an array/string only through the index helper with the
-      segment parsed as i64; anything else is None; no iteration over the data's
-      map entries; the dotted-path result is exactly the fold over the split
-      segments (no fallback lookup afterwards), split by the escape-aware splitter;
+  K5  frame: the walker (by role: the function in the lookup's reach that calls the splitter) answers the entire
+      data, nothing, or the accumulation over the splitter's segments — a fold or a loop with a carried value of any
+      type — seeded with the data, left early only with 'absent', nothing looked up after it; every step, read as
+      decision cases of the step function / path summaries of one iteration (helpers read through), is exactly one
+      access to the current value with the segment — Map::get(segment) on its object payload, the index helper on
+      its array payload / the chars() of its string payload with the segment parsed as i64 — or nothing; no
+      Value indexing (null for absent), no iteration over map entries;
   K6  the splitter is the transducer the property states (rules/splitter.py): a
       one-flag loop over str::chars of the whole key, split at '.', in which —
       on every path through one iteration — an escaped character is pushed as it
@@ -35,7 +38,6 @@ from .engine import Inconclusive
 from .roles import Roles
 from .opfacts import Unit
 from . import prov as P
-from .c12 import lookup_role
 
 VALUE = "serde_json::Value"
 CLONE = "<serde_json::Value as std::clone::Clone>::clone"
@@ -44,39 +46,244 @@ DIRECT_INDEX = re.compile(r"^core::slice::<impl \[T\]>::(get|get_mut|first|last|
 MAP_ITER = re.compile(r"^serde_json::Map::<.*>::(iter|iter_mut|keys|values|values_mut|into_iter|entry|retain|remove|contains_key)$|serde_json::Map<.*> as std::iter::IntoIterator>::into_iter$")
 
 
+def lookup_role(ctx, facts, roles):
+    """The shared lookup, by role: the one local function var hands the data and the typed key to and whose
+    Option<Value> answer it turns into its result.  Returns (body, data parameter, key parameter, key ADT)."""
+    items = facts.items
+    vb, _ = roles.fn_of("var")
+    cands = {}
+    for b in roles.unit(vb.key):
+        for bi, t in b.calls():
+            c = callee_of(t)
+            if c and c.get("local") and items.get(c["key"], {}).get("output") == "std::option::Option<serde_json::Value>":
+                cands.setdefault(c["key"], []).append((b, bi))
+    if len(cands) != 1:
+        raise Inconclusive("shared lookup (data, key) → Option<Value> called by var not identified (%d candidates)" % len(cands))
+    lookup = facts.body(list(cands)[0])
+    ins = items[lookup.key].get("inputs", [])
+    dps = [i + 1 for i, t in enumerate(ins) if t == "&serde_json::Value"]
+    kps = [i + 1 for i, t in enumerate(ins) if t != "&serde_json::Value" and lookup.locals[i + 1].get("adt") and facts.adts.get(lookup.locals[i + 1]["adt"], {}).get("variants")]
+    if len(ins) != 2 or len(dps) != 1 or len(kps) != 1:
+        raise Inconclusive("shared lookup %s: parameters (data, key) not recognised: %s" % (lookup.key, ins))
+    return lookup, dps[0], kps[0], lookup.locals[kps[0]]["adt"]
+
+
+def _is_ctor(c):
+    return bool(c) and "{constructor#" in (c.get("key") or "")
+
+
+def composed_cases(facts, body, known=None, env=None, depth=0, stack=()):
+    """Decision cases of `body` (rules/optnorm.py) with the crate's own helper functions in result position read
+    through: a case whose value is (a constructor around) a call of a local function is replaced by that function's
+    cases, its parameters bound to the caller's argument expressions — so `known` and the atoms stay in the caller's
+    terms.  A helper that cannot be summarised is left as the call it is.  Returns [(conds, value)] or None."""
+    from . import optnorm
+    cs = optnorm.decision_cases(facts, body, known=known, env=env)
+    if cs is None:
+        return None
+    out = []
+
+    def expand(v, d):
+        x = strip_refs(v)
+        if x[0] == "agg" and x[1].get("agg") == "Adt" and len(x[2]) == 1:
+            sub = expand(x[2][0], d)
+            if len(sub) == 1 and not sub[0][0]:
+                return [({}, x if sub[0][1] is x[2][0] else ("agg", x[1], [sub[0][1]]))]
+            return [(c2, ("agg", x[1], [v2])) for c2, v2 in sub]
+        if x[0] == "call" and x[1] and x[1].get("local") and not _is_ctor(x[1]) and d < 4 and x[1]["key"] not in stack + (body.key,):
+            cb = facts.body(x[1]["key"])
+            if cb is not None and cb.kind == "fn" and cb.arg_count == len(x[2]):
+                sub = composed_cases(facts, cb, known=known, env={i + 1: a for i, a in enumerate(x[2])}, depth=d + 1, stack=stack + (body.key,))
+                if sub is not None:
+                    return [(dict(c2), v2) for c2, v2 in sub]
+        return [({}, x)]
+    for conds, v, _p in cs:
+        for c2, v2 in expand(v, depth):
+            cc = dict(conds)
+            clash = False
+            for k, val in c2.items():
+                if k in cc and cc[k] != val:
+                    clash = True
+                cc[k] = val
+            if not clash:
+                out.append((cc, v2))
+    return out
+
+
+def key_typing(ctx, facts, roles, key_adt, cfg, K="K1"):
+    """K1 — which JSON kinds become which key kinds, read off the decision cases of every conversion Value → key
+    (helpers of the conversions read through): a table kind → {outcome}, the integer key being the payload of as_i64
+    of the number and the string key carrying the string's own text."""
+    items = facts.items
+    fam = [b for b in facts.fns() if b.kind == "fn" and items.get(b.key, {}).get("output", "").startswith("std::result::Result<%s" % key_adt) and items[b.key].get("inputs") in (["serde_json::Value"], ["&serde_json::Value"])]
+    famk = {b.key for b in fam}
+    cg, _ = facts.callgraph()
+    callers = {}
+    for k, cs in cg.items():
+        root = k.split("::{closure#")[0]
+        for c in cs:
+            callers.setdefault(c, set()).add(root)
+    # conversions proper: used from outside the family (or not at all); the others are their helpers
+    top = [b for b in fam if not (callers.get(b.key, set()) - {b.key}) or (callers.get(b.key, set()) - famk)]
+    ctx.floor("KeyType conversions (%s)" % cfg, len(top), 1)
+    want = {"Null": {"OK(Null)"}, "String": {"OK(String)"}, "Number": {"OK(Number)", "ERR"}, "Bool": {"ERR"}, "Array": {"ERR"}, "Object": {"ERR"}}
+    mats = []
+    for cb in top:
+        m = {}
+        for v in facts.variants(VALUE):
+            cases = composed_cases(facts, cb, known=lambda pe, adt, _v=v: _v if (adt == VALUE and strip_refs(pe) == ("arg", 1)) else None)
+            key = "%s: %s key (%s)" % (cb.key.split("::", 1)[1], v, cfg)
+            if cases is None:
+                ctx.unread(K + ".key-typing", key, "the conversion has loops or too many paths to summarise", where=cb.where(), fn=cb.key)
+                m[v] = None
+                continue
+            got = set()
+            for conds, val in cases:
+                got.add(_key_outcome(val, conds, key_adt))
+            m[v] = got
+            unk = {g for g in got if g.startswith("?")}
+            if unk and (got - unk) <= want[v]:
+                ctx.unread(K + ".key-typing", key, "a %s key is typed as %s — not a form the rule reads" % (v, sorted(got)), where=cb.where(), fn=cb.key)
+                m[v] = None
+            else:
+                ctx.check(got == want[v], K + ".key-typing", key, "a %s key is typed as %s; expected %s" % (v, "+".join(sorted(got)), "+".join(sorted(want[v]))), where=cb.where(), fn=cb.key, nontrivial=True,
+                          sample={"conversion": cb.key, "kind": v, "outcome": sorted(got)})
+        mats.append((cb, m))
+    if len(mats) >= 2 and all(x is not None for _, m in mats for x in m.values()):
+        ctx.check(all(m == mats[0][1] for _, m in mats), K + ".key-siblings", "the KeyType conversions agree (%s)" % cfg, "the conversions from Value and &Value type keys differently", where=top[0].where(), nontrivial=True)
+
+
+SAME_PAYLOAD = re.compile(r"^std::option::Option::<T>::(ok_or|ok_or_else|copied|cloned|as_ref|as_deref|or|or_else)$|^std::result::Result::<T, E>::(ok|map_err|as_ref|or_else)$|as std::ops::Try>::branch$")
+
+
+def payload_source(e):
+    """The Option/Result-valued expression whose Some/Ok payload `e` (a payload placeholder or a `(x as Some).0`
+    projection) is, looking through the plumbing that hands a payload on unchanged (`ok_or_else`, `ok`, `?`, …)."""
+    x = strip_refs(e)
+    proj = False
+    for _ in range(12):
+        if x[0] == "payload":
+            x, proj = strip_refs(x[2]), True
+        elif x[0] == "field" and x[2] == 0 and x[1][0] == "downcast" and x[1][2] in ("Some", "Ok", "Continue"):
+            x, proj = strip_refs(x[1][1]), True
+        elif x[0] == "call" and x[1] and SAME_PAYLOAD.search(x[1]["path"]) and x[2]:
+            x = strip_refs(x[2][0])
+        elif proj and x[0] == "agg" and x[1].get("variant") in ("Some", "Ok") and x[2]:
+            x, proj = strip_refs(x[2][0]), False          # the payload of a constructor that is known: its operand
+        else:
+            break
+    return x
+
+
+def _subst(e, old, new):
+    if e is old:
+        return new
+    if not isinstance(e, tuple):
+        return e
+    return tuple(_subst(x, old, new) if isinstance(x, tuple) else ([_subst(y, old, new) if isinstance(y, tuple) else y for y in x] if isinstance(x, list) else x) for x in e)
+
+
+def read_through_calls(facts, conds, v, depth=0, skip=()):
+    """[(conds, value)] — `v` with the calls of the crate's own (loop-free) functions inside it replaced by their
+    composed decision cases, parameters bound to the argument expressions (so atoms stay in the caller's terms).  For
+    arithmetic that a maintainer moved into a helper (`slice.get(resolve(len, idx)?)`)."""
+    from . import pathsum
+    if depth > 3:
+        return [(conds, v)]
+    hit = []
+    expr_mentions(v, lambda y: hit.append(y) or False if (y[0] == "call" and y[1] is not None and y[1].get("local") and not _is_ctor(y[1]) and y[1]["key"] not in skip and facts.body(y[1]["key"]) is not None and facts.body(y[1]["key"]).kind == "fn") else False)
+    if not hit:
+        return [(conds, v)]
+    c = hit[0]
+    cb = facts.body(c[1]["key"])
+    if cb.arg_count != len(c[2]):
+        return [(conds, v)]
+    sub = composed_cases(facts, cb, env={i + 1: a for i, a in enumerate(c[2])})
+    if sub is None:
+        return [(conds, v)]
+    asked = conds.get(("variant", pathsum.canon(c)))
+    out = []
+    for c2, v2 in sub:
+        x2 = strip_refs(v2)
+        tag = x2[1].get("variant") if x2[0] == "agg" else ("None" if (x2[0] == "call" and x2[1] and "from_residual" in x2[1]["path"]) else None)
+        if asked in ("Some", "Ok") and tag in ("None", "Err"):
+            continue
+        if asked in ("None", "Err") and tag in ("Some", "Ok"):
+            continue
+        cc = dict(conds)
+        if any(k in cc and cc[k] != val for k, val in c2.items()):
+            continue
+        cc.update(c2)
+        out.extend(read_through_calls(facts, cc, _subst(v, c, v2), depth + 1, skip))
+    return out or [(conds, v)]
+
+
+def _key_outcome(val, conds, key_adt):
+    v = strip_refs(val)
+    if v[0] == "call" and v[1] and "from_residual" in v[1]["path"]:
+        return "ERR"
+    if v[0] == "agg" and v[1].get("variant") == "Err":
+        return "ERR"
+    if not (v[0] == "agg" and v[1].get("variant") == "Ok" and v[2]):
+        return "?" + show_expr(v)[:60]
+    k = strip_refs(v[2][0])
+    if k[0] == "agg" and k[1].get("adt") == key_adt:
+        var, ops = k[1].get("variant"), k[2]
+    elif k[0] == "call" and _is_ctor(k[1]):
+        var, ops = k[1]["path"].rsplit("::", 1)[1], k[2]
+    else:
+        return "?OK(%s)" % show_expr(k)[:60]
+    if var == "String":
+        own = ops and expr_mentions(ops[0], lambda x: x[0] == "downcast" and x[2] == "String" and strip_refs(x[1]) == ("arg", 1))
+        return "OK(String)" if own else "OK(String of %s)" % (show_expr(ops[0])[:50] if ops else "nothing")
+    if var == "Number":
+        o = strip_refs(ops[0]) if ops else ("none",)
+        src = payload_source(o) if o[0] == "payload" else None
+        via = src is not None and src[0] == "call" and src[1] and src[1]["path"] == "serde_json::Number::as_i64" and expr_mentions(src[2][0], lambda x: x[0] == "downcast" and x[2] == "Number" and strip_refs(x[1]) == ("arg", 1))
+        return "OK(Number)" if via else "OK(Number of %s)" % show_expr(o)[:50]
+    return "OK(%s)" % var
+
+
 def run(ctx):
     ctx.explanation = __doc__
-    ctx.rule = "instances = 2×6 key-typing cases, index-helper call sites, forbidden-call scans of the lookup's reach, default-selection facts, per-segment step matrix; non-trivial = specialisation / def-use"
+    ctx.rule = "instances = 6 key-typing cases per conversion, index-helper call sites and decision cases, forbidden-call scans of the lookup's reach, default-selection cases, per-case step table of the path walk; non-trivial = decision cases / def-use"
     ctx.trusted = ["str::chars / Vec<char> indexing is by Unicode scalar value", "serde_json::Map::get is exact-key lookup"]
     cfgs = ["default"] if ctx.tier == "quick" else ["default", "python", "wasm"]
     for cfg in cfgs:
         facts = ctx.facts(cfg)
         roles = Roles(facts)
-        lookup = lookup_role(roles)
-        key_adt = lookup.locals[2]["adt"]
+        lookup, DP, KP, key_adt = lookup_role(ctx, facts, roles)
+        DATA = ("arg", DP)
         items = facts.items
         # ---------------- K1
-        from .c12 import key_typing
         key_typing(ctx, facts, roles, key_adt, cfg, "K1")
 
         # ---------------- K2
-        helpers = [b for b in facts.fns() if b.kind == "fn" and len(items.get(b.key, {}).get("inputs", [])) == 2 and items[b.key]["inputs"][1] == "i64" and items[b.key]["inputs"][0].startswith("&[") and items[b.key]["output"].startswith("std::option::Option<&")]
-        ctx.check(len(helpers) == 1, "K2.one-helper", "one negative-index helper (slice, i64) → Option (%s)" % cfg, "%d index helpers" % len(helpers), where=lookup.where(), nontrivial=True)
-        if len(helpers) != 1:
-            continue
-        helper = helpers[0]
-        lu = Unit(roles, lookup.key, extended=True, stop=[helper.key])
-        sites = lu.calls_to(helper.key)
-        ctx.floor("index helper call sites (%s)" % cfg, len(sites), 1)
-        for s in sites:
-            ty = (callee_of(s.term).get("full") or "")
-            sl = strip_refs(s.body.xtrace(s.term["args"][0]))
-            if "::<char>" in ty:
-                good = expr_mentions(sl, lambda x: x[0] == "call" and x[1] and x[1]["path"].endswith("::collect") and expr_mentions(x, lambda y: y[0] == "call" and y[1] and y[1]["path"] == "core::str::<impl str>::chars"))
-                ctx.check(good, "K2.string-by-chars", "string indexed through Vec<char> from chars() (%s, %s)" % (s.where(), cfg), "the character slice handed to the helper is %s" % show_expr(sl)[:120], where=s.where(), fn=s.body.key, nontrivial=True)
-            else:
-                good = expr_mentions(sl, lambda x: x[0] == "downcast" and x[2] == "Array")
-                ctx.check(good, "K2.array-payload", "array indexed on its own payload (%s, %s)" % (s.where(), cfg), "the slice handed to the helper is %s" % show_expr(sl)[:120], where=s.where(), fn=s.body.key, nontrivial=True)
+        # the index helper(s), by role: the functions (…, i64) → Option in the lookup's reach that perform a positional
+        # access themselves (whatever the sequence type: slice, Vec, any DoubleEndedIterator)
+        reach = Unit(roles, lookup.key, extended=True)
+        helpers = []
+        for b in reach.bodies:
+            ins = items.get(b.key, {}).get("inputs", [])
+            if b.kind == "fn" and b.key != lookup.key and len(ins) == 2 and ins.count("i64") == 1 and items[b.key].get("output", "").startswith("std::option::Option<"):
+                if any(DIRECT_INDEX.search(callee_path(t) or "") for bb in roles.unit(b.key) for _, t in bb.calls()):
+                    helpers.append(b)
+        ctx.check(len(helpers) == 1, "K2.one-helper", "one negative-index helper (sequence, i64) → Option (%s)" % cfg, "%d index helpers%s" % (len(helpers), (": " + ", ".join(h.key.split("::", 1)[1] for h in helpers)) if helpers else ""), where=lookup.where(), nontrivial=True)
+        helper = helpers[0] if len(helpers) == 1 else None
+        lu = Unit(roles, lookup.key, extended=True, stop=[h.key for h in helpers])
+        nsites = 0
+        for hb in helpers:
+            sites = lu.calls_to(hb.key)
+            nsites += len(sites)
+            for s in sites:
+                index_site(ctx, s, 2 - items[hb.key]["inputs"].index("i64"), cfg)
+            for bb in roles.unit(hb.key):        # inside a helper positional access is its business, bytes are not
+                for bi, t in bb.calls():
+                    p = callee_path(t) or ""
+                    if BYTE_OPS.search(p):
+                        ctx.fail("K2.no-bytes", "%s|%s" % (bb.key.split("::", 1)[1], p.rsplit("::", 1)[1]), "byte-based string operation %s in an index helper of the lookup: strings must be indexed by Unicode character" % p, where=bb.where(bi), fn=bb.key)
+        if helpers:
+            ctx.floor("index helper call sites (%s)" % cfg, nsites, 1)
         for s in lu.calls(lambda c: not c["local"]):
             p = callee_path(s.term)
             if BYTE_OPS.search(p):
@@ -86,59 +293,9 @@ def run(ctx):
             if MAP_ITER.search(p):
                 ctx.fail("K5.no-entry-scan", "%s|%s" % (s.body.key.split("::", 1)[1], p.rsplit("::", 1)[1]), "the lookup uses %s: parts of the data not named by the path can influence the result" % p, where=s.where(), fn=s.body.key)
         ctx.ok("K2.scan", "lookup reach scanned for byte operations / direct indexing / entry scans (%d bodies, %s)" % (len(lu.bodies), cfg), nontrivial=True, sample={"bodies": sorted(b.key for b in lu.bodies)})
-        # helper internals, read off its decision cases (rules/optnorm.py): whatever the spelling (`?`, and_then, match,
-        # named booleans), every case either yields nothing or reads the slice it measured at
-        #     |idx|                 when idx >= 0
-        #     len(slice) - |idx|    when idx <  0   (checked: nothing when that would be negative)
-        from . import optnorm, pathsum
-        hc = optnorm.decision_cases(facts, helper)
-        if hc is None:
-            ctx.unread("K2.helper-branches", "index helper (%s)" % cfg, "the index helper has loops or too many paths to summarise", where=helper.where(), fn=helper.key)
-        else:
-            bad, forms = [], set()
-
-            def mentions_call(e, rx):
-                return expr_mentions(e, lambda y: y[0] == "call" and y[1] is not None and re.search(rx, y[1]["path"]) is not None)
-
-            def expand(e, depth=0):
-                """payload placeholders → the expression they are the payload of (so that |idx| and len - |idx| show)."""
-                if not isinstance(e, tuple) or depth > 12:
-                    return e
-                if e[0] == "payload":
-                    return ("payload", e[1], expand(e[2], depth + 1))
-                return tuple([expand(y, depth + 1) if isinstance(y, tuple) else y for y in x] if isinstance(x, list) else (expand(x, depth + 1) if isinstance(x, tuple) else x) for x in e)
-            for conds, v, pth in hc:
-                sign = None
-                for k, val in conds.items():
-                    if k[0] == "cmp" and k[1] == "Lt" and k[2] == "(arg 2)" and k[3] == "c:0":
-                        sign = "neg" if val else "nonneg"
-                    elif k[0] == "cmp" and k[1] == "Lt" and k[2] == "c:-1" and k[3] == "(arg 2)":
-                        sign = "nonneg" if val else "neg"         # -1 < idx
-                    elif k[0] == "cmp" and "(arg 2)" in (k[2], k[3]):
-                        sign = "wrong:%s" % (k,)
-                    elif k[0] == "pure" and "is_negative" in k[1] and "(arg 2)" in k[1]:
-                        sign = "neg" if val else "nonneg"
-                v = strip_refs(v)
-                if (v[0] == "call" and v[1] and "from_residual" in v[1]["path"]) or (v[0] == "agg" and v[1].get("variant") == "None"):
-                    continue
-                if v[0] == "agg" and v[1].get("variant") == "Some" and v[2]:
-                    v = strip_refs(v[2][0])
-                if not (v[0] == "call" and v[1] and re.search(r"^core::slice::<impl \[T\]>::get$|Index<", v[1]["path"]) and strip_refs(v[2][0]) == ("arg", 1)) and not (v[0] == "payload" and mentions_call(v[2], r"^core::slice::<impl \[T\]>::get$")):
-                    bad.append("%s: returns %s" % (sign, show_expr(v)[:70]))
-                    continue
-                idx = expand(v[2][1] if v[0] == "call" else v[2])
-                has_abs = mentions_call(idx, r"<impl i64>::(unsigned_abs|abs)$")
-                has_sub = mentions_call(idx, r"<impl usize>::(checked_sub|saturating_sub|wrapping_sub)$") or expr_mentions(idx, lambda y: y[0] == "binop" and str(y[1]).startswith("Sub"))
-                sub_of_len = expr_mentions(idx, lambda y: y[0] == "call" and y[1] is not None and y[1]["path"] == "core::slice::<impl [T]>::len" and strip_refs(y[2][0]) == ("arg", 1))
-                if sign == "nonneg" and has_abs and not has_sub:
-                    forms.add("nonneg")
-                elif sign == "neg" and has_abs and has_sub and sub_of_len:
-                    forms.add("neg")
-                else:
-                    bad.append("under %s the slice is read at %s" % (sign, show_expr(idx)[:90]))
-            ctx.check(not bad and forms == {"nonneg", "neg"}, "K2.helper-branches", "idx >= 0 reads at |idx|, idx < 0 reads at len - |idx| — on every case of the helper (%s)" % cfg,
-                      "; ".join(bad[:3]) if bad else "the helper has no case for %s indexes" % sorted({"nonneg", "neg"} - forms), where=helper.where(), fn=helper.key, nontrivial=True,
-                      sample={"cases": len(hc), "forms": sorted(forms)})
+        for hb in helpers:
+            ip = items[hb.key]["inputs"].index("i64") + 1
+            helper_table(ctx, facts, hb, 3 - ip, ip, cfg if len(helpers) == 1 else "%s, %s" % (hb.key.split("::", 1)[1], cfg))
 
         # ---------------- K3 / K4 on var
         vb, ve = roles.fn_of("var")
@@ -219,7 +376,7 @@ def run(ctx):
             for bi, t in b.calls():
                 if callee_path(t) == CLONE:
                     a = strip_refs(b.trace(t["args"][0]))
-                    if a == ("arg", 1) and items.get(b.key, {}).get("inputs", [""])[0] == "&serde_json::Value":
+                    if a[0] == "arg" and a[1] - 1 < len(items.get(b.key, {}).get("inputs", [])) and items[b.key]["inputs"][a[1] - 1] == "&serde_json::Value":
                         whole.append((b.key, bi))
         ctx.check(len(whole) >= 3, "K3.whole-data", "operand-less var, the null key and the empty string return a clone of the entire data (%s)" % cfg, "only %d whole-data clone sites (%s)" % (len(whole), whole), where=vb.where(), fn=vb.key, nontrivial=True,
                   sample={"sites": whole})
@@ -227,7 +384,7 @@ def run(ctx):
         blocks, dec = lookup.specialize(lambda e, a: "Null" if a == key_adt else None)
         with lookup.restricted(blocks):
             r = strip_refs(lookup.trace(0))
-        good = r[0] == "agg" and r[1].get("variant") == "Some" and strip_refs(r[2][0])[0] == "call" and strip_refs(r[2][0])[1]["path"] == CLONE and strip_refs(strip_refs(r[2][0])[2][0]) == ("arg", 1)
+        good = r[0] == "agg" and r[1].get("variant") == "Some" and strip_refs(r[2][0])[0] == "call" and strip_refs(r[2][0])[1]["path"] == CLONE and strip_refs(strip_refs(r[2][0])[2][0]) == DATA
         ctx.check(good, "K3.null-key", "a null key yields Some(entire data) (%s)" % cfg, "a null key yields %s" % show_expr(r)[:100], where=lookup.where(), fn=lookup.key, nontrivial=True)
         # K4
         _, s1res = P.analyse(roles)
@@ -238,40 +395,567 @@ def run(ctx):
             ctx.ok("K4.default-inert", "nothing in var or the lookup parses a value (%s)" % cfg, nontrivial=True)
 
         # ---------------- K5 the dotted-path walk
-        walkers = [b for b in lu.bodies if b.kind == "fn" and b.key != lookup.key and items.get(b.key, {}).get("output") == "std::option::Option<serde_json::Value>"]
+        # roles: the splitter is the (&str, char) → Vec<String> function in the lookup's reach, the walker the function
+        # that calls it
+        splitters = [b.key for b in lu.bodies if b.kind == "fn" and items.get(b.key, {}).get("output") == "std::vec::Vec<std::string::String>" and sorted(items[b.key].get("inputs", [])) == ["&str", "char"]]
+        walkers = [b for b in lu.bodies if b.kind == "fn" and b.key != lookup.key and any(callee_of(t) and callee_of(t).get("key") in splitters for bb in roles.unit(b.key) for _, t in bb.calls())]
+        if not splitters:
+            walkers = [b for b in lu.bodies if b.kind == "fn" and b.key != lookup.key and items.get(b.key, {}).get("output") == "std::option::Option<serde_json::Value>"]
         ctx.check(len(walkers) == 1, "K5.walker", "one dotted-path walker (%s)" % cfg, "%d candidates" % len(walkers), where=lookup.where())
         if len(walkers) == 1:
-            w = walkers[0]
-            r = strip_refs(w.trace(0))
-            cands = [strip_refs(x) for x in r[2]] if r[0] == "phi" else [r]
-            kinds = []
-            fold = None
-            for c in cands:
-                if c[0] == "agg" and c[1].get("variant") == "None":
-                    kinds.append("None")
-                elif c[0] == "agg" and c[1].get("variant") == "Some" and strip_refs(c[2][0])[0] == "call" and strip_refs(c[2][0])[1]["path"] == CLONE:
-                    kinds.append("Some(data)")
-                elif c[0] == "call" and c[1] and re.search(r"Iterator(>)?::(fold|try_fold)$", c[1]["path"]):
-                    kinds.append("fold")
-                    fold = c
+            walk(ctx, facts, roles, walkers[0], helpers, cfg)
+
+
+def walk(ctx, facts, roles, w, helpers, cfg):
+    helper = helpers[0] if helpers else None
+    """K5 on the walker: its answer is the entire data (empty key), nothing, or the accumulation over the splitter's
+    segments — a fold, or a loop with a carried value — and nothing after it; every step is read as a table."""
+    items = facts.items
+    r = strip_refs(w.trace(0))
+    cands = [strip_refs(x) for x in r[2]] if r[0] == "phi" else [r]
+    kinds = []
+    fold = None
+    for c in cands:
+        if c[0] == "agg" and c[1].get("variant") == "None":
+            kinds.append("None")
+        elif c[0] == "agg" and c[1].get("variant") == "Some" and strip_refs(c[2][0])[0] == "call" and strip_refs(c[2][0])[1]["path"] == CLONE:
+            kinds.append("Some(data)")
+        elif c[0] == "call" and c[1] and re.search(r"Iterator(>)?::(fold|try_fold)$", c[1]["path"]):
+            kinds.append("fold")
+            fold = c
+        else:
+            kinds.append("other:" + show_expr(c)[:60])
+    if fold is None:
+        if walker_loop_step(ctx, facts, roles, w, helpers, cfg):
+            return
+        # neither the fold itself nor a loop over the segments: if a fold's answer is worked on before it is returned
+        # that is read (and wrong); any other form is not read
+        post = [c for c in cands if expr_mentions(c, lambda x: x[0] == "call" and x[1] is not None and re.search(r"Iterator(>)?::(fold|try_fold)$", x[1]["path"]) is not None)]
+        if not post:
+            ctx.unread("K5.walk-is-the-result", "walker (%s)" % cfg, "the walker answers %s — neither a fold nor a loop over the splitter's segments that the rule reads" % kinds, where=w.where(), fn=w.key)
+            return
+    ctx.check(sorted(kinds) == ["None", "Some(data)", "fold"], "K5.walk-is-the-result", "the walker returns the entire data (empty key), None (scalar data) or exactly the fold over the segments (%s)" % cfg,
+              "the walker's results are %s — a lookup that failed along the path must stay absent (no fallback)" % kinds, where=w.where(), fn=w.key, nontrivial=True, sample={"results": kinds})
+    if fold is not None:
+        it = fold[2][0]
+        split = expr_mentions(it, lambda x: x[0] == "call" and x[1] and x[1]["local"] and items.get(x[1]["key"], {}).get("output") == "std::vec::Vec<std::string::String>")
+        ctx.check(split, "K5.split", "segments come from the escape-aware splitter (%s)" % cfg, "the fold iterates %s" % show_expr(it)[:100], where=w.where(), fn=w.key)
+        split_transducer(ctx, facts, w, it, cfg)
+        seed = strip_refs(fold[2][1])
+        ctx.check(seed[0] == "agg" and seed[1].get("variant") == "Some", "K5.seed", "the walk starts at the entire data (%s)" % cfg, "fold seed %s" % show_expr(seed)[:80], where=w.where(), fn=w.key)
+        clos = strip_refs(fold[2][2])
+        if clos[0] == "agg" and clos[1].get("agg") == "Closure":
+            step_table(ctx, facts, facts.body(clos[1]["closure"]), ("arg", 2), ("arg", 3), helpers, cfg)
+        else:
+            ctx.unread("K5.step", "path step (%s)" % cfg, "the fold's step is %s, not a closure the rule can read" % show_expr(clos)[:80], where=w.where(), fn=w.key)
+
+
+MAP_GET = re.compile(r"^serde_json::Map::<.*>::get$")
+
+
+VALUE_INDEX = re.compile(r"Index<.*> for serde_json::Value>::index$|^<serde_json::Value as std::ops::Index<.*>>::index$|^serde_json::Value::(pointer|pointer_mut)$")
+
+
+class StepJudge:
+    """K5 — one step of the walk as a table.  Every case either yields nothing, or yields what exactly one access found:
+        Map::get(object payload of the current value, the segment)
+        index helper(array payload of the current value,                  the segment parsed as i64)
+        index helper(chars() of the string payload of the current value,  the segment parsed as i64)
+        index helper(a sequence built from a character the walk stands on, the segment parsed as i64)
+    and all of the first three occur.  The kind of the current value is carried by the payload projection itself."""
+
+    def __init__(self, facts, is_cur, is_seg, helpers):
+        self.facts, self.is_cur, self.is_seg = facts, is_cur, is_seg
+        self.hidx = {h.key: facts.items[h.key]["inputs"].index("i64") for h in helpers}
+        self.bad, self.unread, self.classes, self.n = [], [], {}, 0
+
+    def is_access(self, y):
+        return y[0] == "call" and y[1] is not None and (MAP_GET.search(y[1]["path"]) is not None or y[1].get("key") in self.hidx)
+
+    def from_cur(self, e, variant):
+        hit = []
+        expr_mentions(e, lambda y: hit.append(y) or False if (y[0] == "downcast" and y[2] == variant) else False)
+        return bool(hit) and all(expr_mentions(h[1], self.is_cur) for h in hit)
+
+    def plain_seg(self, e):
+        """e is the segment itself (through references / as_str / clone), nothing computed from it."""
+        found = []
+
+        def walk(x, d=0):
+            if not isinstance(x, tuple) or d > 60:
+                return True
+            if self.is_seg(x):
+                found.append(x)
+                return True
+            if x[0] == "call" and (x[1] is None or not STR_PASS.search(x[1]["path"])):
+                return False
+            for y in x[1:]:
+                if isinstance(y, tuple) and not walk(y, d + 1):
+                    return False
+                if isinstance(y, list) and not all(walk(z, d + 1) for z in y if isinstance(z, tuple)):
+                    return False
+            return True
+        return walk(e) and bool(found)
+
+    def seg_parsed(self, e):
+        x = _num_peel(e)
+        while x[0] == "call" and x[1] and re.search(r"Result::<.*>::(ok|unwrap_or\w*)$", x[1]["path"]):
+            x = _num_peel(x[2][0])
+        return x[0] == "call" and x[1] is not None and x[1]["path"] == "core::str::<impl str>::parse" and "i64" in (x[1].get("full") or "") and self.plain_seg(x[2][0])
+
+    def case(self, v, depth=0):
+        self.n += 1
+        v = strip_refs(v)
+        if (v[0] == "call" and v[1] and "from_residual" in v[1]["path"]) or (v[0] == "agg" and v[1].get("variant") == "None"):
+            return
+        vi = []
+        expr_mentions(v, lambda y: vi.append(y) or False if (y[0] == "call" and y[1] is not None and VALUE_INDEX.search(y[1]["path"])) else False)
+        if vi:
+            self.bad.append("a step reads the current value with %s, which answers null for a key that is not there: an absent step and a present null cannot be told apart" % vi[0][1]["path"])
+            return
+        acc = {}
+        expr_mentions(v, lambda y: acc.setdefault(pathsum_canon(y), y) and False if self.is_access(y) else False)
+        if not acc:
+            if _mentions_outside(v, lambda y: y[0] == "call" and y[1] is not None and y[1].get("local") and not _is_ctor(y[1]), self.is_seg):
+                sub = read_through_calls(self.facts, {}, v, skip=tuple(self.hidx)) if depth == 0 else []
+                if len(sub) > 1 or (sub and sub[0][1] is not v):
+                    self.n -= 1
+                    for _, v2 in sub:
+                        self.case(v2, 1)
                 else:
-                    kinds.append("other:" + show_expr(c)[:60])
-            if fold is None:
-                lf = walker_loop_form(ctx, facts, roles, w, helper, cfg)
-                if lf:
-                    continue
-            ctx.check(sorted(kinds) == ["None", "Some(data)", "fold"], "K5.walk-is-the-result", "the walker returns the entire data (empty key), None (scalar data) or exactly the fold over the segments (%s)" % cfg,
-                      "the walker's results are %s — a lookup that failed along the path must stay absent (no fallback)" % kinds, where=w.where(), fn=w.key, nontrivial=True, sample={"results": kinds})
-            if fold is not None:
-                it = fold[2][0]
-                split = expr_mentions(it, lambda x: x[0] == "call" and x[1] and x[1]["local"] and items.get(x[1]["key"], {}).get("output") == "std::vec::Vec<std::string::String>")
-                ctx.check(split, "K5.split", "segments come from the escape-aware splitter (%s)" % cfg, "the fold iterates %s" % show_expr(it)[:100], where=w.where(), fn=w.key)
-                split_transducer(ctx, facts, w, it, cfg)
-                seed = strip_refs(fold[2][1])
-                ctx.check(seed[0] == "agg" and seed[1].get("variant") == "Some", "K5.seed", "the walk starts at the entire data (%s)" % cfg, "fold seed %s" % show_expr(seed)[:80], where=w.where(), fn=w.key)
-                clos = strip_refs(fold[2][2])
-                if clos[0] == "agg" and clos[1].get("agg") == "Closure":
-                    step_matrix(ctx, facts, roles, facts.body(clos[1]["closure"]), helper, cfg)
+                    self.unread.append("a step yields %s" % show_expr(v)[:90])
+            else:
+                self.bad.append("a step yields %s without looking anything up in the current value" % show_expr(v)[:80])
+            return
+        if len(acc) > 1:
+            self.unread.append("a step combines %d accesses: %s" % (len(acc), show_expr(v)[:80]))
+            return
+        a = list(acc.values())[0]
+        cl = self.classes
+        if MAP_GET.search(a[1]["path"]):
+            if not self.from_cur(a[2][0], "Object"):
+                self.bad.append("Map::get is applied to %s, not to the object the walk stands on" % show_expr(strip_refs(a[2][0]))[:60])
+            elif not self.plain_seg(a[2][1]):
+                self.bad.append("the object is asked for %s, not for the segment as it is" % show_expr(strip_refs(a[2][1]))[:60])
+            else:
+                cl["object: Map::get(segment)"] = cl.get("object: Map::get(segment)", 0) + 1
+            return
+        idxp = self.hidx[a[1]["key"]]
+        seq, idx = a[2][1 - idxp], a[2][idxp]
+        if not self.seg_parsed(idx):
+            self.bad.append("the index helper is asked for %s, not for the segment parsed as an integer" % show_expr(strip_refs(idx))[:70])
+            return
+        has_str = expr_mentions(seq, lambda y: y[0] == "downcast" and y[2] == "String")
+        has_arr = expr_mentions(seq, lambda y: y[0] == "downcast" and y[2] == "Array")
+        if has_arr and not has_str:
+            if self.from_cur(seq, "Array"):
+                cl["array: index helper(parse i64)"] = cl.get("array: index helper(parse i64)", 0) + 1
+            else:
+                self.bad.append("the index helper reads %s, not the array the walk stands on" % show_expr(strip_refs(seq))[:60])
+        elif has_str and not has_arr:
+            chars = expr_mentions(seq, lambda y: y[0] == "call" and y[1] is not None and y[1]["path"] == "core::str::<impl str>::chars" and expr_mentions(y, lambda z: z[0] == "downcast" and z[2] == "String"))
+            if not self.from_cur(seq, "String"):
+                self.bad.append("the index helper reads %s, not the string the walk stands on" % show_expr(strip_refs(seq))[:60])
+            elif chars:
+                cl["string: index helper(chars, parse i64)"] = cl.get("string: index helper(chars, parse i64)", 0) + 1
+            else:
+                self.unread.append("a string is indexed as %s" % show_expr(strip_refs(seq))[:70])     # K2.string-by-chars judges the site
+        elif not has_str and not has_arr and expr_mentions(seq, self.is_cur):
+            cl["character: index helper(parse i64)"] = cl.get("character: index helper(parse i64)", 0) + 1
+        else:
+            self.unread.append("the index helper reads %s" % show_expr(strip_refs(seq))[:70])
+
+    def finish(self, ctx, sb, cfg):
+        key = "path step (%s)" % cfg
+        want = ["object: Map::get(segment)", "array: index helper(parse i64)", "string: index helper(chars, parse i64)"]
+        if self.bad:
+            for m in sorted(set(self.bad))[:4]:
+                ctx.fail("K5.step", "path step|%s" % re.sub(r"[0-9]+", "", m)[:60], m, where=sb.where(), fn=sb.key)
+        elif self.unread:
+            ctx.unread("K5.step", key, "; ".join(self.unread[:2]), where=sb.where(), fn=sb.key)
+        else:
+            miss = [x for x in want if x not in self.classes]
+            ctx.check(not miss, "K5.step", "every step of the walk is one access to the current value with the segment, or nothing (%s)" % cfg, "the step has no case for %s" % miss, where=sb.where(), fn=sb.key, nontrivial=True,
+                      sample={"cases": self.n, "accesses": self.classes})
+
+
+def step_table(ctx, facts, sb, CUR, SEG, helpers, cfg):
+    """K5.step on a step *function* (the fold's closure, a helper called per segment): its composed decision cases."""
+    cases = composed_cases(facts, sb)
+    if cases is None:
+        ctx.unread("K5.step", "path step (%s)" % cfg, "the step has loops or too many paths to summarise", where=sb.where(), fn=sb.key)
+        return
+    j = StepJudge(facts, lambda z: z == CUR, lambda z: z == SEG, helpers)
+    for conds, v in cases:
+        j.case(v)
+    j.finish(ctx, sb, cfg)
+
+
+def _mentions_outside(e, pred, stop):
+    """pred holds for a sub-expression of e that does not lie inside a sub-expression satisfying stop."""
+    if not isinstance(e, tuple) or stop(e):
+        return False
+    if pred(e):
+        return True
+    for x in e[1:]:
+        if isinstance(x, tuple) and _mentions_outside(x, pred, stop):
+            return True
+        if isinstance(x, list) and any(isinstance(y, tuple) and _mentions_outside(y, pred, stop) for y in x):
+            return True
+    return False
+
+
+def pathsum_canon(e):
+    from . import pathsum
+    return pathsum.canon(e)
+
+
+def walker_loop_step(ctx, facts, roles, w, helpers, cfg):
+    """The walk as a loop over the splitter's segments with a carried value of whatever type (an owned Value, a
+    reference into the data, a cursor): `for seg in split(key) { cur = …cur…seg…; }`.  Read off the path summaries of
+    one iteration: where the iteration comes round, the new carried value is a step case; where it leaves the
+    function, it must answer 'absent'.  True when read and judged."""
+    from . import panic as PN
+    from . import pathsum, optnorm
+    items = facts.items
+    loops = PN.loops_of(w)
+    if len(loops) != 1:
+        return False
+    h, bl, srcs = loops[0]
+    nbi = [bi for bi in sorted(bl) if w.blocks[bi]["term"]["k"] == "Call" and (callee_path(w.blocks[bi]["term"]) or "").endswith("::next")]
+    if len(nbi) != 1:
+        return False
+    it = w.trace(w.blocks[nbi[0]]["term"]["args"][0])
+    if not expr_mentions(it, lambda x: x[0] == "call" and x[1] and x[1]["local"] and items.get(x[1]["key"], {}).get("output") == "std::vec::Vec<std::string::String>"):
+        return False
+    DATA = None
+    for i, t in enumerate(items.get(w.key, {}).get("inputs", [])):
+        if t == "&serde_json::Value":
+            DATA = ("arg", i + 1)
+    if DATA is None:
+        return False
+    carried = []
+    for l, ds in w.defs().items():
+        if w.is_arg(l):
+            continue
+        inside = [d for d in ds if d[1] in bl and not d[-1]]
+        outside = [d for d in ds if d[1] not in bl and not d[-1]]
+        if inside and len(outside) == 1 and w.dominates(outside[0][1], h):
+            seed = strip_refs(w._trace_def(outside[0], 0, frozenset()))
+            if expr_mentions(seed, lambda y: y == DATA):
+                carried.append((l, seed, inside))
+    if len(carried) != 1:
+        return False
+    cur, seed, inside = carried[0]
+    hks = {hb.key for hb in helpers}
+    seed_ok = not expr_mentions(seed, lambda y: y[0] == "call" and y[1] is not None and y[1]["path"] != CLONE and not _is_ctor(y[1]))
+    ctx.check(seed_ok, "K5.seed", "the walk starts at the entire data (%s)" % cfg, "the walk's current value starts as %s" % show_expr(seed)[:80], where=w.where(), fn=w.key)
+    # the Some edge of next(): one iteration starts there
+    some_t, none_edges = None, set()
+    for sb_ in bl:
+        tt = w.blocks[sb_]["term"]
+        if tt["k"] == "SwitchInt":
+            e = w.trace(tt["discr"])
+            if e[0] == "discr" and strip_refs(e[1])[0] == "call" and strip_refs(e[1])[3] == nbi[0]:
+                r_ = switch_edges_for_variant(w, sb_, "None")
+                if r_:
+                    none_edges.add((sb_, r_[0]))
+                r2 = switch_edges_for_variant(w, sb_, "Some")
+                if r2:
+                    some_t = r2[0]
+    if some_t is None:
+        return False
+    CUR = ("cur",)
+    is_seg = lambda z: z[0] == "call" and z[1] is not None and len(z) > 3 and z[3] == nbi[0] and z[1]["path"].endswith("::next")
+    pw = pathsum.Walker(w, start=some_t, env={cur: CUR}, max_paths=2000)
+    if pw.overflow:
+        ctx.unread("K5.step", "path step (%s)" % cfg, "one iteration of the walk has too many paths to summarise", where=w.where(), fn=w.key)
+        return True
+    absent = lambda rr: rr is not None and ((rr[0] == "agg" and rr[1].get("variant") == "None") or (rr[0] == "call" and rr[1] is not None and "from_residual" in rr[1].get("path", "")))
+    early, steps, stepfn = [], [], None
+    for p_ in pw.paths:
+        if h in p_.blocks:
+            steps.append(p_.env.get(cur, CUR))
+        elif p_.result is not None:
+            for c2, rv in (optnorm.cases_expr(facts, p_.result) or [((), p_.result)]):
+                if not absent(strip_refs(rv)):
+                    early.append(show_expr(strip_refs(rv))[:70])
+    ctx.check(not early, "K5.early-exit", "the walk is left before the segments are exhausted only with 'absent' (%s)" % cfg, "the loop over the segments is left early with %s: the segments that remain are never resolved" % sorted(set(early))[:2], where=w.where(), fn=w.key, nontrivial=True)
+    # what the walker answers
+    r = strip_refs(w.trace(0))
+    cands = [strip_refs(x) for x in r[2]] if r[0] == "phi" else [r]
+    kinds, badk = set(), []
+    for c in cands:
+        if absent(c):
+            kinds.add("None")
+        elif c[0] == "agg" and c[1].get("variant") == "Some":
+            v = strip_refs(c[2][0])
+            if v[0] == "call" and v[1] and v[1]["path"] == CLONE and strip_refs(v[2][0]) == DATA:
+                kinds.add("Some(data)")
+            elif expr_mentions(v, lambda y: y[0] == "phi" and y[1] == cur) and not _mentions_outside(v, lambda y: y[0] == "call" and y[1] is not None and (MAP_GET.search(y[1]["path"]) is not None or y[1].get("key") in hks), lambda y: y[0] == "phi" and y[1] == cur):
+                kinds.add("Some(current)")
+                # a conversion of the final value: read it, every case must hand on (part of) what the walk ended on
+                if v[0] == "call" and v[1].get("local") and not _is_ctor(v[1]):
+                    fb = facts.body(v[1]["key"])
+                    cc = composed_cases(facts, fb) if fb is not None else None
+                    if cc is None:
+                        ctx.unread("K5.walk-is-the-result", "final conversion (%s)" % cfg, "the walk's final value goes through %s, which the rule cannot summarise" % v[1]["key"], where=w.where(), fn=w.key)
+                    else:
+                        for _, fv in cc:
+                            if not expr_mentions(fv, lambda y: y[0] == "arg"):
+                                badk.append("%s turns the walk's final value into %s" % (v[1]["key"].split("::", 1)[1], show_expr(fv)[:50]))
+            elif early and any(show_expr(v)[:40] in e_ for e_ in early):
+                pass        # an early exit, reported above
+            else:
+                badk.append(show_expr(v)[:60])
+        elif early:
+            pass
+        else:
+            badk.append(show_expr(c)[:60])
+    ctx.check(not badk and (kinds == {"None", "Some(data)", "Some(current)"} or (early and "Some(current)" in kinds)), "K5.walk-is-the-result", "the walker returns the entire data (empty key), None (scalar data / absent step) or the value the loop over the segments ends on (%s)" % cfg,
+              "the walker's results are %s %s — a lookup that failed along the path must stay absent, nothing is looked up after the walk" % (sorted(kinds), badk[:2]), where=w.where(), fn=w.key, nontrivial=True)
+    ctx.ok("K5.split", "segments come from the escape-aware splitter (%s)" % cfg)
+    split_transducer(ctx, facts, w, it, cfg)
+    # the step: a function of (current, segment) called per iteration, or the iteration's own code
+    if len(inside) == 1:
+        ex = strip_refs(w._trace_def(inside[0], 0, frozenset([cur])))
+        src = payload_source(ex)
+        if src is not ex and src[0] == "call" and src[1] and src[1].get("local") and not _is_ctor(src[1]) and src[1]["key"] not in hks and len(src[2]) == 2:
+            curp = [i for i, a in enumerate(src[2]) if expr_mentions(a, lambda y: y == ("cycle", cur) or (y[0] == "phi" and y[1] == cur))]
+            segp = [i for i, a in enumerate(src[2]) if expr_mentions(a, is_seg)]
+            if len(curp) == 1 and len(segp) == 1 and curp != segp and facts.body(src[1]["key"]) is not None:
+                step_table(ctx, facts, facts.body(src[1]["key"]), ("arg", curp[0] + 1), ("arg", segp[0] + 1), helpers, cfg)
+                return True
+    j = StepJudge(facts, lambda z: z == CUR, is_seg, helpers)
+    for sv in steps:
+        sv = optnorm.normalise(strip_refs(sv))
+        # `cur = next?` / `if let Some(v) = next { cur = v }`: the new value is the payload of an Option-valued
+        # expression; its cases (combinators and their closures expanded) are the step's cases
+        src = sv[2] if sv[0] == "payload" else sv
+        for c2, v2 in (optnorm.cases_expr(facts, src) or [((), src)]):
+            j.case(optnorm.normalise(strip_refs(v2)))
+    j.finish(ctx, w, cfg)
+    return True
+
+
+STR_PASS = re.compile(r"(::as_str|::as_ref|::borrow|::deref|::as_mut_str|::to_owned|::to_string|::clone|::into|::from|::collect|::into_iter|::iter|::as_slice|::to_vec|::into_boxed_slice|::by_ref|::rev|::copied|::cloned)$")
+
+
+def index_site(ctx, s, seqp, cfg):
+    """K2 at one call of the index helper — a provenance fact about the sequence handed over: text of the data (the
+    String payload of a Value) reaches the helper only as its `chars()`; an array as its own payload; a sequence built
+    from characters alone indexes no string at all."""
+    sl = strip_refs(s.body.xtrace(s.term["args"][seqp - 1]))
+    raw, bytes_, via_chars, arrays = [], [], [], []
+
+    def scan(e, under, d=0):
+        if not isinstance(e, tuple) or d > 60:
+            return
+        if e[0] == "call" and e[1]:
+            p = e[1]["path"]
+            if p == "core::str::<impl str>::chars":
+                for a in e[2]:
+                    scan(a, "chars", d + 1)
+                return
+            if BYTE_OPS.search(p):
+                bytes_.append(p)
+                return
+            if under is None and not STR_PASS.search(p) and not e[1].get("local"):
+                for a in e[2]:
+                    scan(a, "opaque:" + p, d + 1)
+                return
+            for a in e[2]:
+                scan(a, under, d + 1)
+            return
+        if e[0] == "downcast" and e[2] == "String":
+            (via_chars if under == "chars" else raw).append(under)
+            return
+        if e[0] == "downcast" and e[2] == "Array":
+            arrays.append(e)
+            return
+        for x in e[1:]:
+            if isinstance(x, tuple):
+                scan(x, under, d + 1)
+            elif isinstance(x, list):
+                for y in x:
+                    scan(y, under, d + 1)
+    scan(sl, None)
+    ty = (callee_of(s.term).get("full") or "")
+    key = "(%s, %s)" % (s.where(), cfg)
+    if bytes_:
+        ctx.fail("K2.string-by-chars", "index site|bytes", "the sequence handed to the index helper is made with the byte-based %s: strings must be indexed by Unicode character" % bytes_[0], where=s.where(), fn=s.body.key)
+    elif via_chars and not raw:
+        ctx.ok("K2.string-by-chars", "string indexed through its chars() " + key, nontrivial=True)
+    elif raw:
+        ctx.unread("K2.string-by-chars", "index site " + key, "the string reaches the index helper as %s (not through chars(), not through a byte operation the rule knows)" % show_expr(sl)[:120], where=s.where(), fn=s.body.key)
+    elif arrays:
+        ctx.ok("K2.array-payload", "array indexed on its own payload " + key, nontrivial=True)
+    elif "char" in ty and not expr_mentions(sl, lambda x: x[0] == "call" and x[1] and not STR_PASS.search(x[1]["path"])):
+        ctx.ok("K2.string-by-chars", "a sequence built from characters is indexed, no string " + key, nontrivial=True)
+    else:
+        ctx.unread("K2.array-payload", "index site " + key, "the sequence handed to the index helper is %s — neither the characters of a string nor an array's payload" % show_expr(sl)[:120], where=s.where(), fn=s.body.key)
+
+
+ABS = re.compile(r"<impl i64>::(unsigned_abs|abs|wrapping_abs)$")
+NUM_PASS = re.compile(r"TryInto<.*>>::try_into$|TryFrom<.*>>::try_from$|Into<.*>>::into$|From<.*>>::from$|::unwrap$|::expect$|::unwrap_or_default$|::unwrap_or$|::unwrap_or_else$")
+SEQ_LEN = re.compile(r"^core::slice::<impl \[T\]>::len$|^std::vec::Vec::<T, A>::len$|ExactSizeIterator(>)?::len$|^std::iter::Iterator::count$")
+SLICE_GET = re.compile(r"^core::slice::<impl \[T\]>::get$|^std::vec::Vec::<T, A>::get$|Index<I>>::index$|Index<I> for \[T\]>::index$")
+
+
+def _num_peel(e):
+    x = strip_refs(e)
+    for _ in range(16):
+        y = payload_source(x)
+        if y is not x and y != x:
+            x = y
+            continue
+        if x[0] == "cast":
+            x = strip_refs(x[2])
+        elif x[0] == "call" and x[1] and NUM_PASS.search(x[1]["path"]) and x[2]:
+            x = strip_refs(x[2][0])
+        else:
+            break
+    return x
+
+
+def helper_table(ctx, facts, helper, seqp, idxp, cfg):
+    """K2 — the index helper as a decision table (rules/optnorm.py), whatever its spelling and its sequence type:
+           idx >= 0  →  the element |idx| from the front           (get(|idx|), nth(|idx|))
+           idx <  0  →  the element |idx| from the back, 1-based   (get(len − |idx|) with a checked subtraction,
+                                                                    nth_back(|idx| − 1), rev().nth(|idx| − 1))
+       or nothing.  A clamped subtraction, a length taken of something else, a sign test on another constant are read
+       and wrong; arithmetic the reader does not know is not read."""
+    from . import optnorm
+    SEQ, IDX = ("arg", seqp), ("arg", idxp)
+    hc = optnorm.decision_cases(facts, helper)
+    hkey = "index helper (%s)" % cfg
+    if hc is None:
+        ctx.unread("K2.helper-branches", hkey, "the index helper has loops or too many paths to summarise", where=helper.where(), fn=helper.key)
+        return
+    bad, forms, unread = [], set(), []
+    A = "(arg %d)" % idxp
+
+    def is_abs(e):
+        x = _num_peel(e)
+        return x[0] == "call" and x[1] is not None and ABS.search(x[1]["path"]) is not None and strip_refs(x[2][0]) == IDX
+
+    def is_len(e):
+        x = _num_peel(e)
+        return x[0] == "call" and x[1] is not None and SEQ_LEN.search(x[1]["path"]) is not None and _num_peel(x[2][0]) == SEQ
+
+    def minus(e):
+        """(kind, a, b) when e is a − b: kind = checked | clamped | plain."""
+        x = strip_refs(e)
+        if x[0] == "payload":
+            x = payload_source(x)
+        if x[0] == "field" and x[2] == 0 and x[1][0] == "binop" and str(x[1][1]).startswith("Sub"):
+            return ("plain", x[1][2], x[1][3])
+        if x[0] == "binop" and str(x[1]).startswith("Sub"):
+            return ("plain", x[2], x[3])
+        if x[0] == "call" and x[1]:
+            m = re.search(r"<impl (usize|u64|i64|isize)>::(checked_sub|saturating_sub|wrapping_sub)$", x[1]["path"])
+            if m:
+                return ("checked" if m.group(2) == "checked_sub" else "clamped", x[2][0], x[2][1])
+        return None
+
+    def position(v):
+        """front | back | a complaint (str) | None (not read)."""
+        x = strip_refs(v)
+        if x[0] == "agg" and x[1].get("variant") == "Some" and x[2]:
+            x = strip_refs(x[2][0])
+        if x[0] == "payload" or (x[0] == "field" and x[1][0] == "downcast"):
+            x = payload_source(x)
+        while x[0] == "call" and x[1] and re.search(r"Option::<.*>::(copied|cloned|as_ref)$", x[1]["path"]):
+            x = strip_refs(x[2][0])
+        if x[0] != "call" or not x[1]:
+            return None
+        p = x[1]["path"]
+        recv = strip_refs(x[2][0]) if x[2] else None
+        if SLICE_GET.search(p) and len(x[2]) == 2:
+            if _num_peel(recv) != SEQ:
+                return "reads %s, not the sequence it was given" % show_expr(recv)[:50]
+            e = x[2][1]
+            if is_abs(e):
+                return "front"
+            m = minus(e)
+            if m is None:
+                return None
+            kind, a, b_ = m
+            if kind == "clamped" and is_len(a) and expr_mentions(b_, lambda y: y == IDX):
+                return "a negative index reaching before the first element is clamped (%s) instead of being absent" % show_expr(strip_refs(e))[:60]
+            if not is_abs(b_):
+                return None
+            if not is_len(a):
+                la = _num_peel(a)
+                if la[0] == "call" and la[1] and re.search(r"::(len|count)$", la[1]["path"]):
+                    return "counts from the end with %s, which is not the length of the sequence it reads" % show_expr(la)[:70]
+                return None
+            if kind == "clamped":
+                return "a negative index reaching before the first element is clamped (%s) instead of being absent" % show_expr(strip_refs(e))[:60]
+            if kind == "plain":
+                return None
+            return "back"
+        m2 = re.search(r"(Iterator(>)?::)(nth|nth_back)$", p)
+        if m2 and len(x[2]) == 2:
+            if not expr_mentions(recv, lambda y: y == SEQ):
+                return "reads %s, not the sequence it was given" % show_expr(recv)[:50]
+            rev = expr_mentions(recv, lambda y: y[0] == "call" and y[1] is not None and y[1]["path"].endswith("::rev")) != (m2.group(3) == "nth_back")
+            if expr_mentions(recv, lambda y: y[0] == "call" and y[1] is not None and not re.search(r"::(rev|by_ref|into_iter|iter|copied|cloned)$", y[1]["path"])):
+                return None
+            e = x[2][1]
+            if not rev:
+                return "front" if is_abs(e) else None
+            m = minus(e)
+            if m and m[0] == "plain" and is_abs(m[1]) and strip_refs(m[2])[0] == "const" and const_value(strip_refs(m[2])[1]) == 1:
+                return "back"
+            if is_abs(e):
+                return "from the back it reads at |idx| (0-based): index -1 would be the last but one"
+            return None
+        return None
+    def judge(conds, v, depth=0):
+        sign = None
+        for k, val in conds.items():
+            if k[0] == "cmp" and k[1] == "Lt" and k[2] == A and k[3] == "c:0":
+                sign = "neg" if val else "nonneg"
+            elif k[0] == "cmp" and k[1] == "Lt" and k[2] == "c:-1" and k[3] == A:
+                sign = "nonneg" if val else "neg"         # -1 < idx
+            elif k[0] == "cmp" and A in (k[2], k[3]):
+                sign = "wrong:%s %s %s is %s" % (k[2], k[1], k[3], val)
+            elif k[0] == "pure" and "is_negative" in k[1] and A in k[1]:
+                sign = "neg" if val else "nonneg"
+            elif k[0] == "pure" and "is_positive" in k[1] and A in k[1]:
+                sign = "wrong:is_positive"
+        v = strip_refs(v)
+        if (v[0] == "call" and v[1] and "from_residual" in v[1]["path"]) or (v[0] == "agg" and v[1].get("variant") == "None"):
+            return
+        pos = position(v)
+        if pos is None and depth == 0:
+            sub = read_through_calls(facts, conds, v)
+            if len(sub) > 1 or (sub and sub[0][1] is not v):
+                for c2, v2 in sub:
+                    judge(c2, v2, 1)
+                return
+        if pos is None:
+            unread.append("under %s the helper answers %s" % (sign, show_expr(v)[:90]))
+        elif pos not in ("front", "back"):
+            bad.append("under %s: %s" % (sign, pos))
+        elif sign is not None and sign.startswith("wrong"):
+            bad.append("the sign of the index is tested as %s" % sign[6:])
+        elif sign is None:
+            bad.append("reads from the %s whatever the sign of the index" % pos)
+        elif (sign, pos) in (("nonneg", "front"), ("neg", "back")):
+            forms.add(sign)
+        else:
+            bad.append("under %s the sequence is read from the %s" % (sign, pos))
+    for conds, v, pth in hc:
+        judge(conds, v)
+    if bad:
+        ctx.fail("K2.helper-branches", hkey, "; ".join(bad[:3]), where=helper.where(), fn=helper.key)
+    elif unread:
+        ctx.unread("K2.helper-branches", hkey, "; ".join(unread[:2]), where=helper.where(), fn=helper.key)
+    else:
+        ctx.check(forms == {"nonneg", "neg"}, "K2.helper-branches", "idx >= 0 reads |idx| from the front, idx < 0 reads |idx| from the back — on every case of the helper (%s)" % cfg,
+                  "the helper has no case for %s indexes" % sorted({"nonneg", "neg"} - forms), where=helper.where(), fn=helper.key, nontrivial=True, sample={"cases": len(hc), "forms": sorted(forms)})
 
 
 def _abs_operand(body, e):
@@ -374,94 +1058,3 @@ def split_transducer(ctx, facts, w, it, cfg):
     ctx.count("splitter iteration paths (%s)" % cfg, len(tr.paths))
     ctx.floor("splitter iteration paths (%s)" % cfg, len(tr.paths), 4)
     ctx.check(any(e[1] is not None and e[1][0] == "moved" or (e[1] is not None and e[1][0] in ("clone", "taken")) for e in tr.tail_emits), "K6.last-segment", "the pending segment is emitted after the loop (%s)" % cfg, "no emission of the pending segment after the loop", where=sb.where(), fn=sb.key)
-
-
-def walker_loop_form(ctx, facts, roles, w, helper, cfg):
-    """The dotted-path walk written as a loop: `let mut cur = data.clone(); for seg in split(key) { cur = step(cur, seg)?; } Some(cur)`.
-    Returns True when the shape was recognised and judged."""
-    from . import panic as PN
-    items = facts.items
-    loops = PN.loops_of(w)
-    if len(loops) != 1:
-        return False
-    h, bl, srcs = loops[0]
-    nbi = [bi for bi in sorted(bl) if w.blocks[bi]["term"]["k"] == "Call" and (callee_path(w.blocks[bi]["term"]) or "").endswith("::next")]
-    if len(nbi) != 1:
-        return False
-    it = w.trace(w.blocks[nbi[0]]["term"]["args"][0])
-    found = []
-    expr_mentions(it, lambda x: found.append(x) or False if (x[0] == "call" and x[1] and x[1]["local"] and items.get(x[1]["key"], {}).get("output") == "std::vec::Vec<std::string::String>") else False)
-    if not found:
-        return False
-    # the current value: the Value-typed local switched on inside the loop that is defined both before and inside it
-    cur = None
-    for sb in sorted(bl):
-        tt = w.blocks[sb]["term"]
-        if tt["k"] == "SwitchInt":
-            e = w.trace(tt["discr"])
-            if e[0] == "discr" and e[2] == VALUE:
-                x = strip_refs(e[1])
-                if x[0] == "phi":
-                    cur = x[1]
-    if cur is None:
-        return False
-    defs = w.defs().get(cur, [])
-    seeds = [d for d in defs if d[1] not in bl]
-    steps = [d for d in defs if d[1] in bl]
-    seed_ok = len(seeds) == 1 and strip_refs(w._trace_def(seeds[0], 0, frozenset()))[0] == "call" and strip_refs(w._trace_def(seeds[0], 0, frozenset()))[1]["path"] == CLONE and strip_refs(strip_refs(w._trace_def(seeds[0], 0, frozenset()))[2][0]) == ("arg", 1)
-    ctx.check(seed_ok, "K5.seed", "the walk starts at the entire data (%s)" % cfg, "the walk's current value starts as %s" % [show_expr(w._trace_def(d, 0, frozenset()))[:60] for d in seeds], where=w.where(), fn=w.key)
-    # inside the loop the current value is only replaced by the payload of the step's Option (`cur = next?`)
-    step_ok = bool(steps)
-    for d in steps:
-        ex = strip_refs(w._trace_def(d, 0, frozenset()))
-        step_ok = step_ok and ex[0] == "field" and ex[1][0] == "downcast" and ex[1][2] in ("Some", "Continue")
-    # results: Some(data) [empty key], None [scalar / absent step via `?`], Some(cur) after the loop
-    r = strip_refs(w.trace(0))
-    cands = [strip_refs(x) for x in r[2]] if r[0] == "phi" else [r]
-    kinds = []
-    for c in cands:
-        if c[0] == "agg" and c[1].get("variant") == "None":
-            kinds.append("None")
-        elif c[0] == "call" and c[1] and "from_residual" in c[1]["path"]:
-            kinds.append("None")
-        elif c[0] == "agg" and c[1].get("variant") == "Some":
-            v = strip_refs(c[2][0])
-            if v[0] == "call" and v[1]["path"] == CLONE and strip_refs(v[2][0]) == ("arg", 1):
-                kinds.append("Some(data)")
-            elif v[0] == "phi" and v[1] == cur:
-                kinds.append("Some(current)")
-            else:
-                kinds.append("other:" + show_expr(v)[:50])
-        else:
-            kinds.append("other:" + show_expr(c)[:50])
-    ctx.check(step_ok and set(kinds) == {"None", "Some(data)", "Some(current)"}, "K5.walk-is-the-result", "the walker returns the entire data (empty key), None (scalar data / absent step) or the value the loop over the segments ends on (%s)" % cfg,
-              "the walker's results are %s (current value replaced only by the step's payload: %s) — a lookup that failed along the path must stay absent" % (sorted(set(kinds)), step_ok), where=w.where(), fn=w.key, nontrivial=True)
-    ctx.ok("K5.split", "segments come from the escape-aware splitter (%s)" % cfg)
-    split_transducer(ctx, facts, w, it, cfg)
-    step_matrix(ctx, facts, roles, w, helper, cfg, is_cur=lambda e: strip_refs(e)[0] == "phi" and strip_refs(e)[1] == cur)
-    return True
-
-
-def step_matrix(ctx, facts, roles, cb, helper, cfg, is_cur=None):
-    """Per kind of the current value: which access the step performs."""
-    def _is_cur(e):
-        e = strip_refs(e)
-        return expr_mentions(e, lambda x: x[0] == "arg" and x[1] == 2) or expr_mentions(e, lambda x: x[0] == "call" and x[1] and "Try>::branch" in x[1]["path"])
-    is_cur = is_cur or _is_cur
-    for v in facts.variants(VALUE):
-        restrict = P.specialise_unit(roles, cb.key, lambda e, a, _v=v: _v if (a == VALUE and is_cur(e)) else None)
-        blocks = restrict[cb.key]
-        paths = []
-        for k, bl in restrict.items():
-            b = facts.body(k)
-            for bi in sorted(bl):
-                t = b.blocks[bi]["term"]
-                if t["k"] == "Call" and callee_of(t):
-                    paths.append((callee_of(t).get("key") if callee_of(t)["local"] else callee_of(t)["path"]))
-        has_get = any(p.startswith("serde_json::Map::<") and p.endswith("::get") for p in paths)
-        has_helper = helper.key in paths
-        has_parse = any(p == "core::str::<impl str>::parse" for p in paths)
-        has_chars = "core::str::<impl str>::chars" in paths
-        got = "MAPGET" if has_get and not has_helper else ("INDEX(chars)" if has_helper and has_chars and has_parse else ("INDEX" if has_helper and has_parse and not has_chars else ("NONE" if not has_get and not has_helper else "MIXED")))
-        want = {"Object": "MAPGET", "Array": "INDEX", "String": "INDEX(chars)"}.get(v, "NONE")
-        ctx.check(got == want, "K5.step", "path step on a %s (%s)" % (v, cfg), "a path step on a %s performs %s; expected %s" % (v, got, want), where=cb.where(), fn=cb.key, nontrivial=True, sample={"current": v, "access": got})
